@@ -344,6 +344,29 @@ Proof.
   destruct o; cbn; auto.
 Qed.
 
+(* ---------- the winner's answer may arrive late: OCommit ; OFinish is the same bootstrap as OFinish Ok ---------- *)
+Lemma late_answer_same_bootstrap_pf s t s1 o :
+  boot_commit s t = Some (s1, BStarted) -> boot_finish s1 t o = boot_finish s t Ok.
+Proof.
+  unfold boot_commit, boot_finish. destruct (thr s t) as [[n p|n p]|] eqn:Et; try discriminate.
+  destruct (step s (LTxn t Ok)) as [s2|] eqn:Es; [|discriminate].
+  destruct (thr s2 t) as [[n2 p2|n2 p2]|] eqn:Et2; intro H; try discriminate.
+  injection H as <-. rewrite Et2. reflexivity.
+Qed.
+
+(* a transaction that loses in OCommit is answered at once, exactly like OFinish Ok *)
+Lemma commit_loser_is_finish_pf s t s1 :
+  boot_commit s t = Some (s1, BConflict) -> boot_finish s t Ok = Some (s1, BConflict).
+Proof.
+  unfold boot_commit, boot_finish. destruct (thr s t) as [[n p|n p]|] eqn:Et; try discriminate.
+  destruct (step s (LTxn t Ok)) as [s2|] eqn:Es; [|discriminate].
+  destruct (thr s2 t) as [[n2 p2|n2 p2]|] eqn:Et2; intro H; try discriminate; injection H as <-; reflexivity.
+Qed.
+
+Lemma slow_commit_below_timeout_pf r t ms :
+  (ms < request_timeout_ms)%Z -> run_op1 r (OFinishSlow t ms) = run_op1 r (OFinish t Ok).
+Proof. intro H. cbn. apply Z.ltb_lt in H. rewrite H. reflexivity. Qed.
+
 Lemma refused_at_begin_pf s t hid p s' :
   (hid <> scid s \/ running s = true \/ check_req p <> None) -> step s (LBegin t hid p) = Some s' -> s' = s.
 Proof.
